@@ -76,7 +76,9 @@ func resPMT(p psi.PMT, err error) Val {
 	if err != nil {
 		return VErr(errCode(err))
 	}
-	return VOk(vpmt(p))
+	// what the decoded PMT hands out is kept until the op replies, and its getters are asked twice (stable.go)
+	keepPMT("decoded PMT", p)
+	return VOk(twice("PMT getters", func() Val { return vpmt(p) }))
 }
 
 var pidListRe = regexp.MustCompile(`\[([0-9 -]*)\]`)
@@ -230,15 +232,16 @@ func init() {
 		return VL(r, VI(int64(ch)))
 	})
 	register("pmt.remove", func(a []Val) Val {
-		p, err := psi.NewPMT(a[0].B)
+		p, err := psi.NewPMT(keep("input of NewPMT", append([]byte{}, a[0].B...)))
 		if err != nil {
 			return VErr(errCode(err))
 		}
+		keepPMT("decoded PMT", p)
 		rm := []int{}
 		for _, v := range a[1].L {
 			rm = append(rm, v.Int())
 		}
-		p.RemoveElementaryStreams(rm)
+		p.RemoveElementaryStreams(keepInts("argument of RemoveElementaryStreams", rm))
 		q := []Val{}
 		for _, v := range a[2].L {
 			q = append(q, VBool(p.PIDExists(v.Int())))
